@@ -138,7 +138,11 @@ func localTargetMatches(ctx context.Context, target Target, ref schema.Reference
 		// For example, block { foo = self } where "self" refers to the "block"
 		// is considered valid. The use case this is important for is
 		// Terraform's self references inside nested block such as "connection".
-		if target.RangePtr != nil && !hasNestedMatches {
+		//
+		// A longer local address (e.g. self.foo) denotes something declared
+		// within that block/body though, so it remains cyclical even if it has
+		// nested matches (foo = { bar = self.foo }).
+		if target.RangePtr != nil && (!hasNestedMatches || len(target.LocalAddr) > 1) {
 			if rangeOverlaps(*target.RangePtr, originRng) {
 				return false
 			}
